@@ -59,3 +59,18 @@ def Codec.rt (c : Codec) (decodeClaims : String → Option J) (jwtDecode : Strin
     jwtDecode := jwtDecode, kbDecode := kbDecode }
 
 end Impl
+
+namespace Impl
+
+/-- `decode_claims_no_verification`: the claims segment is base64url of JSON text, exactly like a disclosure -/
+def Codec.decodeClaims (c : Codec) (seg : String) : Option J := (B64.dec seg.toList).bind c.parse
+
+/-- the JWS compact serialisation of a signed JWT: three base64url segments joined by `.` -/
+def Codec.compact (c : Codec) (header payload : J) (sig : List UInt8) : String :=
+  String.ofList (B64.enc (c.render header) ++ '.' :: (B64.enc (c.render payload) ++ '.' :: B64.enc sig))
+
+/-- a runtime in which reading the claims without verification is the codec's too -/
+def Codec.rt' (c : Codec) (jwtDecode : String → Outcome (J × J)) (kbDecode : String → J → Outcome (J × J)) : Rt :=
+  c.rt c.decodeClaims jwtDecode kbDecode
+
+end Impl
